@@ -113,7 +113,14 @@ def run(ctx):
     gi = p.cls("_write_py:GenericWriter").methods["__init__"]
     cfg = cfg_of(gi)
     asg = [n for n in walk_local(gi.node) if isinstance(n, ast.Assign) and any(norm(t) == "self.validate_fn" for t in n.targets)]
-    ok = len(asg) == 1 and not [g for g in cfg.guards_of(cfg.node_of(asg[0]))] and norm(asg[0].value) in ("_validate if validator else None",)
+    vflag = "validator"
+    if len(asg) == 1:
+        ok = not [g for g in cfg.guards_of(cfg.node_of(asg[0]))] and norm(asg[0].value) in (f"_validate if {vflag} else None",)
+    else:
+        # if validator: self.validate_fn = _validate else: self.validate_fn = None  (no other guard)
+        on = [x for x in asg if norm(x.value) == "_validate"]
+        off = [x for x in asg if norm(x.value) == "None"]
+        ok = len(asg) == 2 and len(on) == 1 and len(off) == 1 and true_facts(cfg, cfg.node_of(on[0])) == {vflag} and true_facts(cfg, cfg.node_of(off[0])) == {f"not {vflag}"}
     ctx.check("C10.R3", "GenericWriter.__init__: validate_fn installed unconditionally from the validator flag", ok, gi.where(asg[0]) if asg else gi.where(), f"GenericWriter.__init__: {[norm(x) for x in asg]} guards={[norm(t.ast) for t, _ in cfg.guards_of(cfg.node_of(asg[0]))] if asg else []}", "the validation gate is not installed on some construction path (e.g. appending with schema=None) although validator=True")
 
     # ---- R4 strict decision table ------------------------------------------------------------------
